@@ -71,4 +71,6 @@ def _obligations(tier):
                     # a non-final header line needs >= 3 bytes ("a:" LF): the line loop runs at most S/3+2 times (unwinding assertion proves it)
                     unwindset=["evhttp_parse_headers_.0:%d" % (ss // 3 + 3)], timeout=900 if tier == "quick" else 2400, mem_gb=8,
                     desc="segmentation independence of %s: symbolic stream <=%d bytes, symbolic cut point, one read vs two reads" % (mode.lower(), ss)))
+    obs.append(dict(name="start_read", harness="C23_startread.c", entry="harness_startread", unwind=8, timeout=300, mem_gb=4,
+                desc="evhttp_start_read_: bytes already buffered (any size_t amount) are scheduled for parsing, unit step (pipelining hand-over)"))
     return obs
